@@ -876,22 +876,22 @@ class XPathToken(Token[ta.XPathTokenType]):
         elif isinstance(obj, Decimal):
             value = format(obj, 'f')
             if '.' in value:
-                return value.rstrip('0').rstrip('.')
-            return value
+                value = value.rstrip('0').rstrip('.')
+            return '0' if value == '-0' else value
 
         elif isinstance(obj, float):
             if math.isnan(obj):
                 return 'NaN'
             elif math.isinf(obj):
                 return str(obj).upper()
-
             value = str(obj)
-            if '.' in value:
-                value = value.rstrip('0').rstrip('.')
-            if '+' in value:
-                value = value.replace('+', '')
             if 'e' in value:
-                return value.upper()
+                mantissa, exponent = value.split('e')
+                if '.' in mantissa:
+                    mantissa = mantissa.rstrip('0').rstrip('.')
+                return '{}E{}'.format(mantissa, exponent.replace('+', ''))
+            elif '.' in value:
+                return value.rstrip('0').rstrip('.')
             return value
 
         elif isinstance(obj, self.registry.function_token):
